@@ -3,6 +3,11 @@ package main
 // Rule registry.
 func allRules() []*Rule {
 	return []*Rule{
+		ruleR1(),
+		ruleR2(),
 		ruleR6(),
+		ruleR7(),
+		ruleR8(),
+		ruleR16(),
 	}
 }
